@@ -338,3 +338,11 @@ func VerifTranslateColKey(api *API, index string, id uint64) (string, error) {
 func VerifTranslateRowKey(api *API, index, field string, id uint64) (string, error) {
 	return api.holder.translateFile.TranslateRowToString(index, field, id)
 }
+
+// VerifTranslatePrimaryID is the node this node's translate log is streamed from ("" on the primary).
+func VerifTranslatePrimaryID(api *API) string {
+	tf := api.holder.translateFile
+	tf.mu.RLock()
+	defer tf.mu.RUnlock()
+	return tf.primaryID
+}
